@@ -39,7 +39,7 @@ theorem runes_any_bad' (s : Bytes) :
 
 theorem Decode_loop1_eq (rs : List (Int × Int)) :
     bech32_Decode_loop1 rs = .ok (if rs.any (fun p => decide (p.2 < 33) || decide (p.2 > 126)) = true
-      then .ret ([], [], some ⟨"bech32.Decode", 0⟩) else .next ()) := by
+      then .ret ([], [], some ⟨"bech32.Decode", 0, []⟩) else .next ()) := by
   induction rs with
   | nil => rfl
   | cons p rs ih =>
@@ -50,7 +50,7 @@ theorem Decode_loop1_eq (rs : List (Int × Int)) :
 
 theorem Decode_loop2_eq (rs : List (Int × Int)) :
     bech32_Decode_loop2 rs = .ok (if rs.any (fun p => decide (p.2 < 33) || decide (p.2 > 126)) = true
-      then .ret ([], [], some ⟨"bech32.Decode", 3⟩) else .next ()) := by
+      then .ret ([], [], some ⟨"bech32.Decode", 3, []⟩) else .next ()) := by
   induction rs with
   | nil => rfl
   | cons p rs ih =>
@@ -61,7 +61,7 @@ theorem Decode_loop2_eq (rs : List (Int × Int)) :
 
 theorem Encode_loop1_eq (rs : List (Int × Int)) :
     bech32_Encode_loop1 rs = .ok (if rs.any (fun p => decide (p.2 < 33) || decide (p.2 > 126)) = true
-      then .ret ([], some ⟨"bech32.Encode", 1⟩) else .next ()) := by
+      then .ret ([], some ⟨"bech32.Encode", 1, []⟩) else .next ()) := by
   induction rs with
   | nil => rfl
   | cons p rs ih =>
@@ -128,7 +128,7 @@ theorem Decode_loop3_eq : ∀ (rs : List (Int × Int)) (bs : Bytes) (data : Byte
     rs.map (·.2) = bs.map (fun b => Int.ofNat b.toNat) →
     bech32_Decode_loop3 rs data = .ok (match Bech32.mapOpt Bech32.charsetIdx bs with
       | some l => .next (data ++ l)
-      | none => .ret ([], [], some ⟨"bech32.Decode", 4⟩))
+      | none => .ret ([], [], some ⟨"bech32.Decode", 4, []⟩))
   | [], [], data, _ => by simp [bech32_Decode_loop3, Bech32.mapOpt]; rfl
   | [], _ :: _, _, h => by simp at h
   | _ :: _, [], _, h => by simp at h
@@ -210,18 +210,18 @@ theorem slice_ofNat {α : Type} (a : List α) (lo hi : Nat) (h1 : lo ≤ hi) (h2
 
 /-- the Go error value `bech32.Decode` returns for each error class of the model -/
 def decErr : Bech32.Err → Option Go.Err
-  | .badChar => some ⟨"bech32.Decode", 0⟩
-  | .mixedCase => some ⟨"bech32.Decode", 1⟩
-  | .badSeparator => some ⟨"bech32.Decode", 2⟩
-  | .badHrpChar => some ⟨"bech32.Decode", 3⟩
-  | .badDataChar => some ⟨"bech32.Decode", 4⟩
-  | .badChecksum => some ⟨"bech32.Decode", 5⟩
+  | .badChar => some ⟨"bech32.Decode", 0, []⟩
+  | .mixedCase => some ⟨"bech32.Decode", 1, []⟩
+  | .badSeparator => some ⟨"bech32.Decode", 2, []⟩
+  | .badHrpChar => some ⟨"bech32.Decode", 3, []⟩
+  | .badDataChar => some ⟨"bech32.Decode", 4, []⟩
+  | .badChecksum => some ⟨"bech32.Decode", 5, []⟩
   | e => cbErr e
 
 def encErr : Bech32.Err → Option Go.Err
-  | .badHrpEmpty => some ⟨"bech32.Encode", 0⟩
-  | .badHrpChar => some ⟨"bech32.Encode", 1⟩
-  | .mixedCase => some ⟨"bech32.Encode", 2⟩
+  | .badHrpEmpty => some ⟨"bech32.Encode", 0, []⟩
+  | .badHrpChar => some ⟨"bech32.Encode", 1, []⟩
+  | .mixedCase => some ⟨"bech32.Encode", 2, []⟩
   | e => cbErr e
 
 theorem sepTest (pos : Nat) (s : Bytes) :
@@ -364,16 +364,16 @@ theorem encode_tie (hrp data : Bytes) :
 /-! ## plugin/encode.go -/
 
 def parseIdErr : Keys.Err → Option Go.Err
-  | .bech32 _ => some ⟨"plugin.ParseIdentity", 0⟩
-  | .badType => some ⟨"plugin.ParseIdentity", 1⟩
-  | .badName => some ⟨"plugin.ParseIdentity", 2⟩
-  | _ => some ⟨"unreachable", 0⟩
+  | .bech32 _ => some ⟨"plugin.ParseIdentity", 0, []⟩
+  | .badType => some ⟨"plugin.ParseIdentity", 1, []⟩
+  | .badName => some ⟨"plugin.ParseIdentity", 2, []⟩
+  | _ => some ⟨"unreachable", 0, []⟩
 
 def parseRcErr : Keys.Err → Option Go.Err
-  | .bech32 _ => some ⟨"plugin.ParseRecipient", 0⟩
-  | .badType => some ⟨"plugin.ParseRecipient", 1⟩
-  | .badName => some ⟨"plugin.ParseRecipient", 2⟩
-  | _ => some ⟨"unreachable", 0⟩
+  | .bech32 _ => some ⟨"plugin.ParseRecipient", 0, []⟩
+  | .badType => some ⟨"plugin.ParseRecipient", 1, []⟩
+  | .badName => some ⟨"plugin.ParseRecipient", 2, []⟩
+  | _ => some ⟨"unreachable", 0, []⟩
 
 theorem allowed_ascii_b : ∀ c : UInt8, Keys.allowed.contains c = true → c < 0x80 := by
   apply Bech32.forall_u8; decide +kernel
